@@ -6,6 +6,31 @@ pub fn vsub<T>(s: &[T], a: usize, b: usize) -> (r: &[T])
     ensures r@ == s@.subrange(a as int, b as int),
 { &s[a..b] }
 
+/// the slice view of a range-indexable base: slices, arrays, Vec, and (declared next to the type) types whose Deref target is one of them
+pub trait VAsSlice { type E; spec fn vsl(&self) -> Seq<Self::E>; }
+impl<T> VAsSlice for [T] { type E = T; open spec fn vsl(&self) -> Seq<T> { self@ } }
+impl<T, const N: usize> VAsSlice for [T; N] { type E = T; open spec fn vsl(&self) -> Seq<T> { self@ } }
+impl<T> VAsSlice for Vec<T> { type E = T; open spec fn vsl(&self) -> Seq<T> { self@ } }
+/// `x[a..b]` as a place compared with another (rule N21c): panics unless a <= b <= len
+#[verifier::external_body]
+pub fn vsub_any<S: VAsSlice + ?Sized>(s: &S, a: usize, b: usize) -> (r: &[S::E])
+    requires a <= b <= s.vsl().len(),
+    ensures r@ == s.vsl().subrange(a as int, b as int),
+            a == 0 && b == s.vsl().len() ==> r@ == s.vsl(),      // x[..] is x (stated so that the full-range spelling needs no extensionality hint)
+{ unimplemented!() }
+#[verifier::external_body]
+pub fn vlen_any<S: VAsSlice + ?Sized>(s: &S) -> (r: usize)
+    ensures r == s.vsl().len(),
+{ unimplemented!() }
+/// element types whose `==` is value equality
+pub trait VPrimEq {}
+impl VPrimEq for u8 {} impl VPrimEq for u16 {} impl VPrimEq for u32 {} impl VPrimEq for u64 {} impl VPrimEq for usize {} impl VPrimEq for bool {}
+/// `<[T] as PartialEq>::eq`: same length and element-wise equal
+#[verifier::external_body]
+pub fn vslice_eq<T: VPrimEq>(a: &[T], b: &[T]) -> (r: bool)
+    ensures r == (a@ == b@),
+{ unimplemented!() }
+
 /// `x[a..b].copy_from_slice(y)`: panics unless a <= b <= len and y.len() == b - a
 #[verifier::external_body]
 pub fn vcopy_into<T: Copy, const N: usize>(x: &mut [T; N], a: usize, b: usize, y: &[T])
